@@ -207,7 +207,22 @@ let sync_core j (r : nrec) (msgs : msg list) ~(conf_first : bool) =
       (List.filter_map (fun m -> if m.mfrom = j && (m.mtype = 3 || m.mtype = 8) then Some m.mterm else None) msgs) in
   let app_msgs = List.filter (fun m -> m.mfrom = j && m.mtype = 3) msgs in
   let msgs = List.filter relevant msgs in
-  let log_differs () = not (match_log (node j) r.o) in
+  (* what the node can have adopted from a leader: the recorded log without the entries of its own
+     term at the end if it campaigned for that term (those it appended itself as leader) *)
+  let own_suffix =
+    if r.votei = j && r.o.o_role = Leader then begin
+      let rec cnt l = match l with (e : entry) :: rest when int_ e.eterm = r.term -> 1 + cnt rest | _ -> 0 in
+      cnt (List.rev r.o.o_ents)
+    end else 0 in
+  let pre_n = r.nents - own_suffix in
+  let o_pre = if own_suffix = 0 then r.o else
+      { r.o with o_ents = (let rec take k l = if k <= 0 then [] else match l with [] -> [] | x :: t -> x :: take (k - 1) t in take pre_n r.o.o_ents) } in
+  let log_differs () =
+    let n = node j in
+    if own_suffix > 0 && List.length n.log >= r.snapii + pre_n then
+      (* the abstract log may already hold (part of) the own-term suffix *)
+      not (match_log n r.o) && not (match_log { n with log = (let rec take k l = if k <= 0 then [] else match l with [] -> [] | x :: t -> x :: take (k - 1) t in take (r.snapii + pre_n) n.log) } o_pre)
+    else not (match_log n o_pre) in
   (* a candidate whose recorded log continues with entries of its own term has led that term *)
   let transient_leader () =
     let n = node j in
@@ -239,7 +254,7 @@ let sync_core j (r : nrec) (msgs : msg list) ~(conf_first : bool) =
       let found = ref None in
       let w = ref cur0 in
       while !found = None && !w <= r.term do
-        if obs_in_tlog !st (nat !w) r.o then found := Some !w;
+        if obs_in_tlog !st (nat !w) o_pre then found := Some !w;
         incr w
       done;
       !found
@@ -299,7 +314,7 @@ let sync_core j (r : nrec) (msgs : msg list) ~(conf_first : bool) =
             let saved = !st in
             let n = node j in
             if n.rl = Candidate || n.rl = Leader then ignore (try_label (L_StepDown nj));
-            if try_label (L_Replicate (nj, nat (r.snapii + r.nents))) then true else (st := saved; false)
+            if try_label (L_Replicate (nj, nat (r.snapii + pre_n))) then true else (st := saved; false)
           end in
       (* search for an order of the actions that the rules accept (votes first, then the log, then
          acknowledgments: the usual order; other orders by backtracking) *)
